@@ -101,6 +101,8 @@ def run_ints(ctx, spec):
   from paranoid_crypto.lib import rsa_util
   mon = contracts.monitor(ctx, ntheory_util, 'ExtendedProductTree',
                           tree_contract)
+  pm = contracts.PurityMonitor(ctx, keep=120, max_repr=20000)
+  pm.wrap(rsa_util, 'BatchGCD', norm=lambda v: [int(x) for x in v])
   rng = ctx.rng('ints')
   try:
     for size in range(spec['part'], spec['top'] + 1, spec['parts']):
@@ -148,7 +150,9 @@ def run_ints(ctx, spec):
         for i, (v, w) in enumerate(zip(vals, want)):
           if w > 1 and w != v or (w == v and v > 1):
             ctx.distinct(size, k, i)
+    pm.recheck()
   finally:
+    pm.restore()
     mon.restore()
   try:
     ctx.sample({'batch_size': size, 'values': vals[:6], 'extra': extra})
